@@ -392,9 +392,15 @@ type node struct {
 
 func genNodes(depth int) []node {
 	var ns []node
+	shapeOf := map[int]int{} // one shape per field number and level: a tag path then denotes one kind of field
 	for i, n := 0, rng.Intn(5); i < n; i++ {
 		nd := node{fn: []int{1, 2, 3, 4, 15, 16, 2047, 1<<29 - 1}[rng.Intn(8)]}
-		switch rng.Intn(5) {
+		sh, ok := shapeOf[nd.fn]
+		if !ok {
+			sh = rng.Intn(6)
+			shapeOf[nd.fn] = sh
+		}
+		switch sh {
 		case 0:
 			nd.wt, nd.v = 0, []uint64{0, 1, 127, 128, math.MaxInt64, 1 << 63, math.MaxUint64, uint64(rng.Int63())}[rng.Intn(8)]
 		case 1:
@@ -403,13 +409,12 @@ func genNodes(depth int) []node {
 			nd.wt, nd.v = 1, rng.Uint64()
 		case 3:
 			nd.wt = 2
-			if rng.Intn(2) == 0 {
-				nd.str = true
-				nd.b = []byte([]string{"", "a", "hello world", "xyz"}[rng.Intn(4)])
-			} else {
-				nd.b = make([]byte, rng.Intn(6))
-				rng.Read(nd.b)
-			}
+			nd.str = true
+			nd.b = []byte([]string{"", "a", "hello world", "xyz"}[rng.Intn(4)])
+		case 4:
+			nd.wt = 2
+			nd.b = make([]byte, rng.Intn(6))
+			rng.Read(nd.b)
 		default:
 			nd.wt = 2
 			if depth < 3 {
